@@ -6,16 +6,12 @@ mod c02;
 mod c03;
 mod c04;
 mod c09;
-mod engine;
-mod gen;
+use simcommon::{engine, gen, query, scenario, translator};
 mod ir;
 mod minimise;
 mod oracle;
 mod owners;
 mod pipeline;
-mod query;
-mod scenario;
-mod translator;
 
 use oracle::{Exec, RunRecord, Stats, Verdict};
 use scenario::Scenario;
